@@ -124,7 +124,7 @@ def snp_events(run, tier, seed, tag):
 
 def indel_events(run, tier, seed, tag):
     rng = random.Random(seed)
-    n = 24 if tier == "quick" else 300
+    n = 36 if tier == "quick" else 360
     sb = skacli.Sandbox(tag)
     events = []
     try:
@@ -133,7 +133,7 @@ def indel_events(run, tier, seed, tag):
             ns = rng.randint(3, 8)
             nind = rng.randint(1, 3)
             length = rng.randint(10 * k + nind * 5 * k, 14 * k + nind * 6 * k)
-            sc = derive.lo_indel_scenario(rng, k, ns, length, nind)
+            sc = derive.lo_indel_scenario(rng, k, ns, length, nind, tandem=(ci % 3 == 2))
             if sc is None:
                 continue
             names = ["i%d_%d" % (ci, i) for i in range(ns)]
@@ -141,6 +141,7 @@ def indel_events(run, tier, seed, tag):
             threads = rng.choice([1, 2, 3, 4])
             r = run_lo(sb, [[x["seq"] for x in recs] for recs in sc["samples"]], names, k, "i%d" % ci, threads=threads, missing=0.0)
             ctx = {"k": k, "names": names, "samples": ctx_samples(sc["samples"]), "pre_strict": sc["pre_strict"], "threads": threads,
+                   "stratum": sc["stratum"],
                    "planted": [{"len": x["len"], "seq": b(x["seq"]), "long": [i + 1 for i in x["long"]], "kind": x["kind"], "pos": x["pos"]}
                                for x in sc["planted"]]}
             ev = {"ev": "lo.indels", "id": ci, "ctx": ctx, "panic": "" if r["rc"] == 0 else (r["err"] or "exit")}
